@@ -201,7 +201,7 @@ theorem frame_incrByFloat (s : MState) (hp : s.pebble = true) (now : Int) (key :
       rcases hreg with h' | h'
       · rw [hl] at h'; cases h'
       · exact h'
-    have hp0 : Api.parseFloatText [48] = some (some 0) := by decide
+    have hp0 : Api.parseFloatText [48] = some (some 0) := by decide +kernel
     simp only [DsStr.bytes, Option.getD_some, List.isEmpty_nil, if_true, hp0, F64.add?]
     split
     · next hn => rw [hn] at hin; cases hin
